@@ -89,9 +89,10 @@ ReqRegister(c) ==
     /\ pend' = pend \cup {[k |-> "reg", c |-> c]}
     /\ NoHist
 
-ReqUnregister(c) ==   \* the read pump ends, or Close(): may be asked for any known connection, repeatedly
+ReqUnregister(c) ==   \* the read pump ends, or Close(): may be asked for any known connection, repeatedly - also for
+                      \* one whose registration the hub refused (the hub finds nothing and does nothing)
     /\ UNCHANGED <<life, registered, open, closed, q, members, view, mu, hub, cop, crashed>>
-    /\ MayStart /\ life[c] \in {"live", "gone"}
+    /\ MayStart /\ life[c] \in {"live", "gone", "rejected"}
     /\ [k |-> "unreg", c |-> c] \notin pend
     /\ pend' = pend \cup {[k |-> "unreg", c |-> c]}
     /\ NoHist
